@@ -149,6 +149,6 @@ end
 
 theorem len_proc (lay : Layout) (off : Nat) (d : ProcDecl SStmt) : (compileProc lay off d).length = sizeProc d := by
   unfold compileProc sizeProc
-  cases d.result <;> simp [len_stmt] <;> omega
+  cases d.result <;> cases d.static <;> simp [len_stmt] <;> omega
 
 end RbThm.ProcLen
